@@ -276,8 +276,28 @@ def sc_overmount(sess, rng, tb, findings, nsteps):
         g.request('readdir', rng.choice([ROOT_INO, 2]), size=4096, offset=TWO64 - 1, limit=10, ans=mk_ans())
     return c
 
+def sc_refused_umount(sess, rng, tb, findings, rm):
+    """umount of paths that are not mount points (an ancestor of a mount, a sibling, a missing path) is refused and must
+    leave the namespace alone -- with and without remove_pseudo_root; every mount is still reached by walking"""
+    c = new_case(sess, rng, tb, rm=rm); g = HistoryGen(c, rng)
+    g.mount(path=mk_path(rng, [('N', 1), ('N', 2), ('N', 3)], noise=False), ans=okmount(rng))
+    g.mount(path=mk_path(rng, [('N', 1), ('N', 4)], noise=False), ans=okmount(rng))
+    g.mount(path=mk_path(rng, [('N', 5)], noise=False), ans=okmount(rng))
+    for comps in ([('N', 1)], [('N', 1), ('N', 2)], [('N', 6)], [('N', 1), ('N', 2), ('N', 7)], []):
+        g.umount(mk_path(rng, comps, noise=False))
+        if not c.dead: probe_mount_paths(g, c, findings)
+    g.umount(mk_path(rng, [('N', 1), ('N', 4)], noise=False))          # a real umount, then the refused ones again
+    for comps in ([('N', 1)], [('N', 1), ('N', 4)], [('N', 1), ('N', 2)]):
+        g.umount(mk_path(rng, comps, noise=False))
+        if not c.dead: probe_mount_paths(g, c, findings)
+    st, o = g.mount(path=mk_path(rng, [('N', 1), ('N', 2), ('N', 8)], noise=False), ans=okmount(rng))   # reuses the kept directories
+    if not c.dead: probe_mount_paths(g, c, findings)
+    return c
+
 def gen_cases(sess, rng, tb, tier, findings):
     cases = []
+    if not os.environ.get('VFS_NO_DET'):
+        cases.append(sc_refused_umount(sess, rng, tb, findings, 1)); cases.append(sc_refused_umount(sess, rng, tb, findings, 0))
     q = tier == 'quick'
     for _ in range(40 if q else 300): cases.append(sc_random(sess, rng, tb, findings, rng.randrange(10, 60)))
     for _ in range(2 if q else 12): cases.append(sc_wrap(sess, rng, tb, findings, rng.choice([270, 300, 520])))
@@ -315,7 +335,7 @@ def run_check(tier, seed):
     if not okm:
         es = coq_error_site(outm)
         broken.append({'kind': 'proof', 'theorem_or_lemma': es[2] if es else None, 'site': list(es[:2]) if es else None, 'message': es[3] if es else outm[-1500:]})
-    ok, out, bindir = cargo_build(['vfs'])
+    ok, out, bindir = cargo_build(['vfs'], features=['persist'])     # same feature set as C19: the three checks share the binary
     if not ok:
         broken.append({'kind': 'harness-build', 'log': out[-3000:]})
         return finish(ev, PROP, findings, broken)
